@@ -1,6 +1,6 @@
 #!/usr/bin/env python3
-"""ref_sweep.py <root dir, e.g. /tmp/ref1> [group ...]: runs the quick checks against every behaviour-preserving change
-<root>/out/<group>/rN.diff (scratch worktree, VERIF_REPO); a VIOLATION there is a false alarm (or a change that is
+"""ref_sweep.py <root dir> [group ...]: runs the quick checks against every behaviour-preserving change
+<root>/<group>/rN.diff (the kept set is /verif/controls; scratch worktree, VERIF_REPO); a VIOLATION there is a false alarm (or a change that is
 not behaviour-preserving after all) and exit 2 a construct the machinery cannot handle. Prints one line per run."""
 import glob, os, subprocess, sys
 MAP = {"optics": ["C01", "C02", "C03", "C04"], "pipeseq": ["C05", "C06", "C07", "C11", "C12", "C13"], "unbound": ["C08"],
@@ -12,7 +12,7 @@ def sh(c, **k):
     p = subprocess.run(c, shell=True, stdout=subprocess.PIPE, stderr=subprocess.STDOUT, text=True, **k)
     return p.returncode, p.stdout
 for g in groups:
-    for d in sorted(glob.glob(os.path.join(root, "out", g, "r*.diff"))):
+    for d in sorted(glob.glob(os.path.join(root, g, "r*.diff")) or glob.glob(os.path.join(root, "out", g, "r*.diff"))):
         wt = "/tmp/refwt-%d" % os.getpid()
         sh("git -C /repo worktree remove --force %s" % wt)
         rc, o = sh("git -C /repo worktree add -q --detach %s HEAD" % wt)
